@@ -49,3 +49,18 @@ def modular_decode_encode(text):
 def modular_encode_decode(token_ids):
     "ids -> tokens -> ids"
     return MazeTokenizerModular.encode(MazeTokenizerModular.decode(token_ids))
+
+
+def item_prim(grid_shape, accessible_cells, max_tree_depth, do_forks, start_coord, allowed_start, allowed_end, deadend_start, deadend_end, endpoints_not_equal):
+    maze = LatticeMazeGenerators.gen_prim(grid_shape, 2, accessible_cells, max_tree_depth, do_forks, start_coord)
+    return maze, maze.generate_random_path(True, allowed_start, allowed_end, deadend_start, deadend_end, endpoints_not_equal)
+
+
+def item_percolation(grid_shape, p, start_coord, allowed_start, allowed_end, deadend_start, deadend_end, endpoints_not_equal):
+    maze = LatticeMazeGenerators.gen_percolation(grid_shape, p, 2, start_coord)
+    return maze, maze.generate_random_path(True, allowed_start, allowed_end, deadend_start, deadend_end, endpoints_not_equal)
+
+
+def item_dfs_percolation(grid_shape, p, accessible_cells, max_tree_depth, start_coord, allowed_start, allowed_end, deadend_start, deadend_end, endpoints_not_equal):
+    maze = LatticeMazeGenerators.gen_dfs_percolation(grid_shape, p, 2, accessible_cells, max_tree_depth, start_coord)
+    return maze, maze.generate_random_path(True, allowed_start, allowed_end, deadend_start, deadend_end, endpoints_not_equal)
